@@ -20,8 +20,10 @@ RULE = ("input = (api, text): grammar-generated declarations / type strings (typ
         "truncation) ; Python side: fresh FFI per input, with or without a prelude cdef; C side: "
         "typeof on an empty _cffi_backend.FFI() and on out-of-line modules built from generated "
         "contexts (type strings use the context's typedef/struct/enum/constant names; inputs "
-        "reaching the 1200-opcode limit and the realize recursion limit); distinct = (api/"
-        "target kind, text); non-trivial = non-empty text")
+        "reaching the 1200-opcode limit and the realize recursion limit, lone surrogates); "
+        "libFuzzer target on parse_c_type.c with empty/populated contexts and output arrays of "
+        "1..1200 entries (counted in evaluations as executed units); distinct = (api/target kind, "
+        "text); non-trivial = non-empty text")
 ASSUMPTIONS = ["MemoryError (address space limited to 1 GB), RecursionError and the 20 s watchdog kill are "
                "resource blow-ups: counted (resource_*), neither success nor violation",
                "nesting depth of generated inputs is bounded (<= 60 levels on the Python side) so that "
@@ -135,7 +137,7 @@ def g_expr(r, env, depth=0, cparser=False):
         right = g_expr(r, env, depth + 1)
         if op in ('<<', '>>'):      # bounded counts: 1 << 4294967296 is a resource blow-up
             right = r.choice(['0', '1', '3', '8', '31', '32', '63', '64', '200', '-1', '-0',
-                              '(1-1)', '-5', 'K1', '5000', '99999999999999999999999999'])
+                              '(1-1)', '-5', 'K1', '5000', '20000', '99999999999999999999999999'])
             return '(%s %s %s)' % (g_expr(r, env, depth + 1), op, right)
         elif op in ('/', '%') and r.random() < 0.35:
             right = r.choice(['0', '-1', '-0', '(1-1)', '0x0', '0L', '1 - 1', '00'])
@@ -321,7 +323,7 @@ def mutate_tokens(r, text):
     return ''.join(toks)
 
 
-def mutate_bytes(r, text, maxnest=60, surrogates=False):
+def mutate_bytes(r, text, maxnest=60):
     s = list(text)
     for _ in range(r.choice([1, 1, 2, 4])):
         i = r.randrange(len(s) + 1)
@@ -346,8 +348,6 @@ def mutate_bytes(r, text, maxnest=60, surrogates=False):
         else:
             n = r.choice([3, 10, maxnest])
             s[i:i] = list('(*' * n + ')' * n + '(void)' * r.choice([0, 1]))
-    if surrogates:
-        s.insert(r.randrange(len(s) + 1), r.choice(['\ud800', '\udc80', '\udfff']))
     return ''.join(s)
 
 
@@ -844,7 +844,16 @@ def fuzz_finish(ctx, h):
 
 def run(ctx):
     rng = ctx.rng('gen')
-    fz = fuzz_start(ctx, 8 if not ctx.thorough else 120)
+    fz = fuzz_start(ctx, 8 if not ctx.thorough else 120)     # runs beside the two other parts
+    try:
+        run_parts(ctx, rng)
+        fuzz_finish(ctx, fz)
+    finally:
+        if fz['p'].poll() is None:
+            fz['p'].kill()
+
+
+def run_parts(ctx, rng):
     # ---- Python side (plain build, many processes)
     npy = ctx.scale(16000, 200000)
     per = 250 if not ctx.thorough else 2000
@@ -866,7 +875,6 @@ def run(ctx):
     for d in sur[:1 if not ctx.thorough else 3]:
         ccases.append({'side': 'c', 'no': len(ccases), 'ctx': seeds, 'explicit': [d]})
     run_side(ctx, 'c', setup, ccases, 'asan', nproc=1 if not ctx.thorough else 2)
-    fuzz_finish(ctx, fz)
 
 
 def replay(ctx, data):
